@@ -92,6 +92,11 @@ class Exec:
             if not e["reexpressed"]:
                 pass
             return {}
+        if k == "express":
+            e = self._slot(op["s"])
+            e["obj"].express_in(np.array(op["frame"], dtype=float))
+            e["reexpressed"] = True
+            return {}
         if k == "setE":
             e = self._slot(op["s"])
             e["obj"].youngs_modulus = float(op["E"])
